@@ -288,12 +288,37 @@ def _r5(ctx):
     a = ctx.func("ISASemantics.assign_src_dst")
     first = [s for s in a.node.body if isinstance(s, ast.If)][0]
     parts = {U(v) for v in first.test.values} if isinstance(first.test, ast.BoolOp) and isinstance(first.test.op, ast.Or) else {U(first.test)}
-    ok = "instruction_form.mnemonic is None" in parts and any(
-        U(s) == "instruction_form.semantic_operands = {'source': [], 'destination': [], 'src_dst': []}" for s in first.body) \
-        and isinstance(first.body[-1], ast.Return)
+    def empty_roles(v, depth=3):
+        """True: evaluates to {'source': [], 'destination': [], 'src_dst': []} (possibly a copy of a constant holding it);
+        None: not recognised"""
+        while True:
+            if isinstance(v, ast.Call) and (pm.call_name(v) or "").split(".")[-1] in ("deepcopy", "copy", "dict") and len(v.args) == 1:
+                v = v.args[0]
+            elif isinstance(v, ast.Call) and isinstance(v.func, ast.Attribute) and v.func.attr == "copy" and not v.args:
+                v = v.func.value
+            else:
+                break
+        if isinstance(v, ast.Dict):
+            keys = {k.value for k in v.keys if isinstance(k, ast.Constant)}
+            return keys == {"source", "destination", "src_dst"} and all(isinstance(x, ast.List) and not x.elts for x in v.values)
+        if isinstance(v, ast.DictComp) and isinstance(v.value, ast.List) and not v.value.elts and len(v.generators) == 1:
+            it = v.generators[0].iter
+            if isinstance(it, (ast.Tuple, ast.List, ast.Set)) and {x.value for x in it.elts if isinstance(x, ast.Constant)} == {
+                    "source", "destination", "src_dst"} and U(v.key) == U(v.generators[0].target):
+                return True
+        if depth and isinstance(v, ast.Attribute) and U(v.value) in ("self", "cls", a.cls.name if a.cls else ""):
+            for c in ctx.repo.mro(a.cls.name):
+                if v.attr in ctx.repo.classes[c].class_attrs:
+                    return empty_roles(ctx.repo.classes[c].class_attrs[v.attr], depth - 1)
+        if depth and isinstance(v, ast.Name) and v.id in a.module.globals:
+            return empty_roles(a.module.globals[v.id], depth - 1)
+        return None
+    neutral = [empty_roles(s.value) for s in first.body if isinstance(s, ast.Assign) and U(s.targets[0]) == "instruction_form.semantic_operands"]
+    ok = "instruction_form.mnemonic is None" in parts and neutral == [True] and isinstance(first.body[-1], ast.Return)
+    recognised = not ("instruction_form.mnemonic is None" in parts and neutral == [None] and isinstance(first.body[-1], ast.Return))
     uses_before = [n for s in a.node.body[: a.node.body.index(first)] for n in ast.walk(s)
                    if isinstance(n, ast.Attribute) and n.attr in ("mnemonic", "operands")]
-    ctx.check(ok and not uses_before, "R5", "assign_src_dst: no mnemonic -> empty roles, nothing else touched", a.where(first),
+    ctx.judge(ok and not uses_before, recognised, "R5", "assign_src_dst: no mnemonic -> empty roles, nothing else touched", a.where(first),
               "assign_src_dst does not return empty roles for a line without mnemonic before using it", a.qname, "src_dst neutral")
     t = ctx.func("ArchSemantics.assign_tp_lt")
     br = [n for n in ast.walk(t.node) if isinstance(n, ast.If) and U(n.test) == "instruction_form.mnemonic is None"]
